@@ -17,7 +17,7 @@ PROP = 'C16'
 MANIFEST = dict(
     technique='TLA+ models FgdDb (lazy binary database) and FgdDoc (text format: exact export text, read-back, long-string splitting, binary decay) checked by TLC; model transitions and TLC-simulated query orders replayed on real EngineDB objects; implementation records validated by TLC (FgdDbTrace, FgdDocTrace)',
     category='model_checking',
-    text='TLC exhausts the lazy-database design on small block layouts (mutually dependent blocks, in-block and chained bases, an overriding second database) with parse-once, stable-identity and same-as-full-load invariants, and checks the same invariants along simulated query orders over the block structure read from the real fgd.lzma; every transition / behaviour is replayed through engine_def()/engine_dbase() on freshly unserialised databases (the small layouts serialised by the real serialise()) and each step - which objects are created in which order, identities, resolved bases, definition hashes, full state snapshots - must be the step FgdDbOps takes. For the text format TLC enumerates ~28.5k (definition, options) feature combinations (including number-like defaults and choice values: which may be written without quotes) and all strings <= 7 over an escape-relevant alphabet for the long-string law; every combination is built through the API, exported, parsed and re-exported, and TLC requires the text to equal ExportLines line by line, the parsed definition to equal ExportParse field by field, and the second text to equal the first; the same for seeded random definitions, _write_longstring at LIMIT=1000, the whole bundled database as one file (order, concatenation, per-entity text and definition) and the binary serialise/unserialise round trip.',
+    text='TLC exhausts the lazy-database design on small block layouts (mutually dependent blocks, in-block and chained bases, an overriding second database) with parse-once, stable-identity and same-as-full-load invariants, and checks the same invariants along simulated query orders over the block structure read from the real fgd.lzma; every transition / behaviour is replayed through engine_def()/engine_dbase() on freshly unserialised databases (the small layouts serialised by the real serialise()) and each step - which objects are created in which order, identities, resolved bases, definition hashes, full state snapshots - must be the step FgdDbOps takes. For the text format TLC enumerates ~28.5k (definition, options) feature combinations (including number-like defaults and choice values: which may be written without quotes) and all strings <= 7 over an escape-relevant alphabet for the long-string law; every combination is built through the API, exported, parsed and re-exported, and TLC requires the text to equal ExportLines line by line, the parsed definition to equal ExportParse field by field, and the second text to equal the first; the same for seeded random definitions, _write_longstring at LIMIT=1000, the whole bundled database as one file (order, concatenation, per-entity text and definition) and the binary serialise/unserialise round trip: ~890 enumerated engine-format definitions (empty / non-empty caption and default, flags, every value type, mixed-case keys, I/O, unset / empty / tagged resources) compared after lazy and whole loading with the ORIGINAL definitions up to BinDecay, what the format cannot hold refused, every entity present.',
     design_ref='4 (C16)',
     note='Trusts TLC, the projection (proj_ent, identity tokens from wrapping ent_unserialise) and the real Tokenizer (C03). Alphabet without \\v \\b \\a. The autovis() helper (a parse-time convenience that turns into @AutoVisgroup entries) and snippets are not covered. Pure-Python tree only.',
 )
@@ -123,6 +123,9 @@ def sig_of(m: dict) -> dict:
             cause = 'bases_by_name'
     elif rec.get('k') == 'bin':
         cause = rec.get('sig', {}).get('src', '')
+    elif rec.get('k') == 'binset':
+        # entities handed to serialise() that are simply not in the database that comes back
+        cause = 'overflow_dropped' if clause == 'bin.classes' and not rec.get('err') and set(rec['got']) < set(rec['want']) else 'none'
     sig['cause'] = cause
     sig['group'] = '.'.join(clause.split('.')[:2])
     keep = {k: v for k, v in rec.items() if k not in ('sig', 'parsed', 'got', 'snap', 'defs', 'order', 'blocks1', 'blocks2')}
@@ -326,6 +329,30 @@ def run(tier: str, seed: int) -> int:
             return mism
         return fn
 
+    def bin_cases(cov):
+        # the binary database against the original definitions, switch by switch
+        cfg = 'FgdDoc_bin_edges.cfg'
+        r = run_tlc('FgdDoc', cfg, workers=4)
+        core.require_mc(r, cfg)
+        cases = [p for p in r.prints if isinstance(p, dict) and p.get('tag') == 'CASE']
+        if len(cases) * 4 != r.distinct or not any(not c['rep'] for c in cases):
+            raise MachineryError(f'{cfg}: {len(cases)} cases printed for {r.distinct} states')
+        cov['models'][cfg] = {'generated': r.generated, 'distinct': r.distinct, 'depth': r.depth, 'cases': len(cases)}
+        cov['states'] += r.distinct
+        cov['transitions'] += r.generated
+        cf_ = work.path('cases_bin.json')
+        cf_.write_text(json.dumps(cases))
+        out = work.path('cases_bin.ndjson')
+        st = json.loads(core.run_driver('c16_driver.py', ['bincases', cf_, out], env=env).strip().splitlines()[-1])
+        nrep = sum(1 for c in cases if c['rep'])
+        if st['records'] != 2 * nrep + (len(cases) - nrep) + 5:
+            raise MachineryError(f'{cfg}: driver wrote {st["records"]} records for {len(cases)} cases')
+        cov['binary_cases_replayed'] = len(cases)
+        cov['traces'] += st['records']
+        mism = validate_doc(out, work, cov)
+        cov['samples'].append(sample(out))
+        return mism
+
     def beyond(mode: str):
         def fn(cov):
             out = work.path(mode + '.ndjson')
@@ -356,6 +383,7 @@ def run(tier: str, seed: int) -> int:
             jobs.append(timed('db_singles', db_singles))
         if 'doc' in stages:
             jobs += [timed('doc_cases_' + sl, doc_cases(sl)) for sl in ('header', 'io', 'num', 'res')]
+            jobs.append(timed('doc_cases_bin', bin_cases))
             jobs.append(timed('doc_text_mc', text_mc))
         if 'beyond' in stages:
             jobs += [timed(m, beyond(m)) for m in ('docrandom', 'binary', 'long')]
